@@ -77,6 +77,10 @@ func validateOperands(exps ...Expression) Object {
 				return errObj
 			}
 		case *CallExpression:
+			if isConditionFunction(node) {
+				return newError("the function is not allowed to be used this way in an expression; function: " + node.Function.String())
+			}
+
 			if errObj := validateCall(node); isError(errObj) {
 				return errObj
 			}
